@@ -197,6 +197,9 @@ impl<'a> Gen<'a> {
                     let (a, b) = if op == "Equals" || op == "NotEquals" {
                         let t = *self.rng.pick(&[Ty::Int, Ty::Int, Ty::Str, Ty::Real, Ty::Nil]);
                         (self.expr(cx, t, d), self.expr(cx, t, d))
+                    } else if self.w(1) {
+                        // two strings: ordered by length; of equal length never less, and "less or equal" only when equal
+                        (self.expr(cx, Ty::Str, d), self.expr(cx, Ty::Str, d))
                     } else {
                         (self.cmp_operand(cx, d), self.cmp_operand(cx, d))
                     };
@@ -241,7 +244,17 @@ impl<'a> Gen<'a> {
                 _ => card("Sub", vec![self.expr(cx, Ty::Int, d), self.lit(Ty::Real)]),
             },
             Ty::Str => self.expr(cx, ty, 0),
-            Ty::Nil => nil(),
+            Ty::Nil => {
+                // the value of a call of a function that runs off its last card (nil), otherwise the literal
+                let nil_sigs: Vec<Sig> = self.sigs.iter().filter(|s| s.ret == Ty::Nil).cloned().collect();
+                if !nil_sigs.is_empty() && self.w(5) {
+                    let s = self.rng.pick(&nil_sigs).clone();
+                    let args = self.args_for(cx, &s.params, d);
+                    if self.w(3) { dyncall(named_fn(&s.name), args) } else { call(&s.name, args) }
+                } else {
+                    nil()
+                }
+            }
             Ty::Tab => match if aok { self.rng.below(4) } else { 3 } {
                 0 => {
                     let n = self.rng.below(4);
@@ -418,6 +431,8 @@ impl<'a> Gen<'a> {
         let k = self.rng.below(3);
         let f = match self.rng.below(5) {
             0 if k == 1 => named("NativeFunction", *self.rng.pick(&["id1", "t_i", "t_v"]), vec![]),
+            // a host function value that fails: its failure carries its own name inside the re-entering function's failure
+            0 if k == 0 && self.prof.natives => named("NativeFunction", "fail0", vec![]),
             1 if k == 1 => {
                 // a closure that re-enters again through the host
                 let p = self.fresh("p");
@@ -428,7 +443,9 @@ impl<'a> Gen<'a> {
         };
         let mut args = vec![f];
         for _ in 0..k {
-            args.push(self.expr(cx, Ty::Int, 1));
+            // mostly integers; now and then a string (a typed callee rejects it with an invalid-argument failure)
+            let t = if self.rng.below(8) == 0 { Ty::Str } else { Ty::Int };
+            args.push(self.expr(cx, t, 1));
         }
         vec![setg(&g, native(&format!("call{k}"), args))]
     }
